@@ -23,6 +23,11 @@ func Parse(in string) (sections []*Section, err error) {
 	parser.AddErrorListener(errorListener)
 	parser.BuildParseTrees = true
 	tree := parser.Start()
+	if errorListener.ErrorBuilder.Len() != 0 {
+		// The text is not in the grammar: the recovered parse tree contains error nodes at
+		// arbitrary positions, which the walker (it addresses children by position) cannot digest.
+		return nil, fmt.Errorf("%v", errorListener.ErrorBuilder.String())
+	}
 
 	walker := NewWalker(parser)
 	antlr.ParseTreeWalkerDefault.Walk(walker, tree)
